@@ -86,6 +86,22 @@ def work(item):
         if o.status != 0 or o.san or o.signal or base is None:
             return res      # not an assemblable program (C12/C10 look at failures)
         want, meta, errs = decode.ihex(base)
+        if errs and want:
+            # the plain hex file itself is not well formed (C03's subject) - but if it also carries a different image
+            # than -type bin of the same source, the image depends on the output type (C13)
+            o2, data2 = cli(exe, d, "bin", "o.bin", [], ENV)
+            if o2.status == 0 and not o2.san and not o2.signal and data2 is not None:
+                lo, hi = min(want), max(want)
+                got, m2, e2 = decode.rawbin(data2, lo)
+                v = compare("range", want, got, lo, hi)
+                if v or len(data2) != hi - lo + 1:
+                    res["viol"].append(("image-differs/type-bin/%s" % cpu, "-type bin image vs -type hex image (hex file malformed: %s): %s"
+                                        % (errs[0], v[0][1] if v else "bin spans %d bytes, hex %d" % (len(data2), hi - lo + 1))))
+                else:
+                    res["skipped"].append("hex-file-malformed")
+                res["valid"] = True
+                res["nbytes"] = len(want)
+            return res
         if errs or not want:
             return res
         res["valid"] = True
@@ -156,6 +172,35 @@ def work(item):
         shutil.rmtree(d, ignore_errors=True)
 
 
+def scoped_program(cpu, rng):
+    n = rng.randint(1, 4)
+    src = [".%s" % cpu, ".org 0x%x" % rng.choice([0x100, 0x1000, 0x2000])]
+    src += ["target:", ".export target", "  .dc16 0x1111", "other:", "  .dc16 0x0101"]
+    for i in range(n):
+        kind = rng.choice(["scope", "func"])
+        if kind == "scope":
+            src += [".scope", "  .dc16 other", "target:", "  .dc16 0x22%02x" % i, "  .dc16 target", "inner%d:" % i,
+                    "  .dc16 inner%d, target, other" % i, ".ends"]
+        else:
+            src += [".func fn%d" % i, "  .dc16 target", "target%s:" % ("" if rng.random() < 0.5 else "_l"),
+                    "  .dc16 0x33%02x" % i, "  .dc16 fn%d" % i, ".endf"]
+        src += ["  .dc16 target, other"]
+    src += ["last:", "  .dc16 target, last"]
+    return "\n".join(src) + "\n"
+
+
+def pagecross_program(cpu, rng):
+    src = [".%s" % cpu, "start:", ".export start"]
+    for base in rng.sample([0x10000, 0x20000, 0x30000], rng.randint(1, 2)):
+        back = rng.choice([1, 3, 7, 9, 12, 15, 17, 28, 31, 33])
+        n = back + rng.randint(1, 40)
+        src.append(".org 0x%x" % (base - back))
+        vals = [rng.getrandbits(8) for _ in range(n)]
+        for j in range(0, n, 8):
+            src.append("  .db " + ", ".join("0x%02x" % v for v in vals[j:j + 8]))
+    return "\n".join(src) + "\n"
+
+
 def gen_items(run):
     quick = run.tier == "quick"
     exe = core.ARTS["san"]["naken_asm"]
@@ -179,6 +224,15 @@ def gen_items(run):
             continue
         shape = shapes[i % len(shapes)]
         progs.append((cpu, c12.build_files(cpu, ins, shape, rng.getrandbits(4)), "multi-" + shape))
+    # two further program kinds (data-only, so they assemble on every CPU): scoped/shadowed labels referenced inside
+    # and outside .scope/.func blocks (resolution depends on per-pass scope bookkeeping), and contiguous data runs that
+    # cross a 64 KiB boundary at a non-16-aligned distance (record flushing in the hex/srec writers vs the bin image)
+    nextra = 24 if quick else 300
+    byte_cpus = ["msp430", "z80", "6502", "68000", "8051", "stm8", "6809", "arm", "mips", "riscv"]
+    for i in range(nextra):
+        cpu = byte_cpus[i % len(byte_cpus)]
+        progs.append((cpu, {"p.asm": scoped_program(cpu, rng)}, "scoped"))
+        progs.append((cpu, {"p.asm": pagecross_program(cpu, rng)}, "pagecross"))
     items = []
     for cpu, files, kind in progs:
         k = rng.randint(0, 3)
